@@ -257,6 +257,13 @@ let ref_step_case (c : case) : string * string =
         let r = Printf.sprintf "resclass=ok %s st=ok:%x%s%s" (fmt_state_tokens c s1) (int_of_z (charge_ref i len s)) ccrmask
             (if ign = [] then "" else " ignmd=" ^ String.concat "," (List.map (Printf.sprintf "%x") ign)) in
         (r, dline)
+    else if reg_overlap i && code_ok s len && List.for_all (fun (a, n) -> span_ok data_ok a n) (accesses i s)
+            && aligned i s && disjoint_from_code i len s then
+      (* @ERn+ / @-ERn with the data register overlapping the address register: the value result is outside the domains
+         of C01 / C08, but the bus-cycle mix (code fetches, one internal state pair, the data access at the operand's
+         effective address) does not depend on it: charge-only claim for C20 *)
+      (Printf.sprintf "resclass=ok st=ok:%x" (int_of_z (charge_ref i len s)),
+       "C01=0 C02=0 C03=0 C04=0 C05=0 C06=0 C07=0 C08=0 C20=1" ^ known)
     else ("", dline)
 
 (* kind=port: histories of DDR / DR writes, external input changes and DR reads on the 11 ports, against the
@@ -392,7 +399,7 @@ let ref_timer (c : case) : string * bool =
   (Printf.sprintf "res=%s md=%s q=%s" (String.concat "," rs) (String.concat ";" md)
      (String.concat "," (List.map (fun v -> Printf.sprintf "%x" (int_of_z v)) !q)), !dom)
 
-(* kind=entry: ops = int:<v> [,step]: interrupt entry through vector v, optionally followed by the handler's RTE *)
+(* kind=entry: ops = int:<v> [,irq:<w>...] [,step]: interrupt entry through vector v, optionally followed by the handler's RTE *)
 let ref_entry_case (c : case) : string * string =
   match c.ops with
   | OInt v :: rest ->
@@ -403,11 +410,15 @@ let ref_entry_case (c : case) : string * string =
         | Some s1 ->
           (match rest with
            | [] -> (Printf.sprintf "resclass=ok %s ccrmask=bf" (fmt_state_tokens c s1), "C06=1")
-           | [ OStep ] ->
+           | _ when (match List.rev rest with
+                     | OStep :: pre -> List.for_all (function OIrq _ -> true | _ -> false) pre
+                     | _ -> false) ->
+             (* requests raised while the handler runs masked stay pending: the handler's RTE is the reference's RTE *)
              (match ref_decode s1 with
               | Some (i, len) when dom_c06 i len s1 ->
                 (match sem_ref i len s1 with
-                 | Some s2 -> (Printf.sprintf "resclass=ok,ok %s" (fmt_state_tokens c s2), "C06=1")
+                 | Some s2 -> (Printf.sprintf "resclass=%s %s" (String.concat "," (List.map (fun _ -> "ok") c.ops))
+                                 (fmt_state_tokens c s2), "C06=1")
                  | None -> ("", "C06=0"))
               | _ -> ("", "C06=0"))
            | _ -> ("", "C06=0")))
